@@ -225,6 +225,60 @@ func checkC19(r *core.Run) {
 	if ll != nil {
 		r.Check(len(an.CallsTo(ll, false, "os.Remove")) == 1, "R-C19-load", "log/discarded-log-removed", p.Pos(ll.Pos()), "a discarded log file is removed", "a log with a foreign sequence is not removed")
 	}
+	// every change of the in-memory index is recorded for persistence: on each way from memput/memdel to the
+	// return the operation either queues the key (PendingRecords) or, in volatile mode, marks the store as
+	// modified (NoSyncMode, the flag Close() looks at)
+	for _, n := range []string{"Put", "PutExt", "Del"} {
+		fn := q("(*DB)." + n)
+		if fn == nil {
+			r.Fail("R-C19-order", "change-recorded/"+n, "-", "method not found")
+			continue
+		}
+		marks := map[*ssa.BasicBlock]bool{}
+		var starts []*ssa.BasicBlock
+		for _, b := range fn.Blocks {
+			for _, ins := range b.Instrs {
+				switch x := ins.(type) {
+				case *ssa.Store:
+					if fa, ok := x.Addr.(*ssa.FieldAddr); ok {
+						if f, _ := an.FieldOf(fa); f == "lib/others/qdb.DB.NoSyncMode" && an.Expr(x.Val) == "true" {
+							marks[b] = true
+						}
+					}
+				case *ssa.MapUpdate:
+					if an.Atoms(x.Map)["field:lib/others/qdb.DB.PendingRecords"] {
+						marks[b] = true
+					}
+				case *ssa.Call:
+					if cn := an.CallName(x); cn == "(*lib/others/qdb.QdbIndex).memput" || cn == "(*lib/others/qdb.QdbIndex).memdel" {
+						starts = append(starts, b)
+					}
+				}
+			}
+		}
+		bad := false
+		for _, sb := range starts {
+			if marks[sb] {
+				continue
+			}
+			seen := map[*ssa.BasicBlock]bool{}
+			var walk func(b *ssa.BasicBlock)
+			walk = func(b *ssa.BasicBlock) {
+				for _, s := range b.Succs {
+					if seen[s] || marks[s] {
+						continue
+					}
+					seen[s] = true
+					if _, isRet := s.Instrs[len(s.Instrs)-1].(*ssa.Return); isRet {
+						bad = true
+					}
+					walk(s)
+				}
+			}
+			walk(sb)
+		}
+		r.Check(len(starts) > 0 && !bad, "R-C19-order", "change-recorded/"+n, p.Pos(fn.Pos()), "every way out after changing the index queues the key or marks the volatile store as modified", n+" can return after changing the in-memory index without queueing the key or marking the store modified: in volatile mode Close() then writes nothing and the change is lost")
+	}
 	// codec
 	c19Codec(r, p)
 	// locks
